@@ -81,6 +81,9 @@ func c03rGen(rng *rand.Rand, k int) *c03rSeq {
 		s.first = k % c03rFirstKinds
 		s.second = []int{[]int{c03rHangLong, c03rFragLong}[k/c03rFirstKinds]}
 		s.gap = time.Duration(pick(rng, 0, 20, 300)) * time.Millisecond
+	} else if k == 2*c03rFirstKinds {
+		// a duplicate of an in-flight id that would be answered at once if it were admitted
+		s.first, s.second, s.gap = c03rInFlight, []int{c03rEcho}, time.Duration(pick(rng, 0, 20))*time.Millisecond
 	} else {
 		s.first = rng.Intn(c03rFirstKinds)
 		for i, n := 0, 1+rng.Intn(3); i < n; i++ {
@@ -257,6 +260,7 @@ func c03rRun(s *c03rSeq) (verdict string, outcome string) {
 		}
 	}
 	firstPending := false // the first call has not ended yet when the re-use is sent
+	firstSent := time.Now()
 	switch s.first {
 	case c03rTimeout:
 		c.send(c03rCallFrames(s.id, "victim", "hang", s.ttl1, s.csum, false))
@@ -362,6 +366,19 @@ func c03rRun(s *c03rSeq) (verdict string, outcome string) {
 	} else if refused {
 		outcome = "error-frame"
 	}
+	// a call req that duplicates the id of a call IN FLIGHT is not a new call: dropped, error
+	// frame or connection closed -- never served.  Judged on the peer's own clock: a call res
+	// for the id (the first call never answers) that arrived before the first call's ttl had
+	// elapsed and before any error frame for the id.
+	if firstPending && !(s.first == c03rCancel && s.role == "relayc") {
+		c.mu.Lock()
+		rt, rok := c.resAt[s.id]
+		et, eok := c.errAt[s.id]
+		c.mu.Unlock()
+		if rok && rt.Before(firstSent.Add(time.Duration(s.ttl1)*time.Millisecond)) && !(eok && et.Before(rt)) {
+			return "[c03:duplicate-id-served] a call req that re-uses the id of a call still in flight on the connection was relayed and answered with a call res instead of being dropped, refused or closing the connection (" + s.desc + ")", "served"
+		}
+	}
 	// ---- probes: the attacked connection is closed, or answers a ping and serves a fresh id
 	if !c.isClosed() {
 		c.send([][]byte{rawFrameBytes(0xd0, 0xfffffff1, nil)})
@@ -430,8 +447,17 @@ func c03rStart(rng *rand.Rand, n int, tier string, o *Out) func() {
 			results[k] = c03rResult{seqs[k], v, out}
 		}(k)
 	}
+	// the forced two-reader schedule (engine_peerinput_race.go), once per run
+	var raceVerdict, raceOutcome string
+	wg.Add(1)
+	go func() {
+		defer wg.Done()
+		raceVerdict, raceOutcome = c03xRun()
+	}()
 	return func() {
 		wg.Wait()
+		o.Hist("relay-reuse: forced race -> " + strings.SplitN(raceOutcome, ":", 2)[0])
+		o.Oracle("peerinput-reuse", "race0", !strings.HasPrefix(raceOutcome, "infeasible"), "race "+raceOutcome, raceVerdict)
 		for k, r := range results {
 			o.Hist("relay-reuse: " + c03rFirstName[r.s.first] + " -> " + r.outcome)
 			if k < 2 {
